@@ -118,6 +118,9 @@ func (p *PKCS7PaddingWriter) Write(buff []byte) (n int, err error) {
 	if p.cache.Len() > p.blockSize {
 		// 把超过一个分组长度的部分读取出来，写入到实际的out中
 		size := p.cache.Len() - p.blockSize
+		if size > len(p.swap) {
+			p.swap = make([]byte, size)
+		}
 		_, _ = p.cache.Read(p.swap[:size])
 		_, err = p.out.Write(p.swap[:size])
 		if err != nil {
